@@ -6,6 +6,8 @@ import suite_o
 import suite_k
 import suite_e
 import suite_json
+import suite_xml
+import suite_glencoe
 
 TRUSTED_BASE = [
     "Coq 8.16.1 kernel; vm_compute for Examples / refuted witnesses; no native_compute",
@@ -101,6 +103,32 @@ PROPS = {
               "byte-identical text. non-trivial = at least two features"),
         assumptions=["json.loads(json.dumps(v)) = v for JSON-representable values (validated on every case)"],
         trusted=["external: Python json module (dump/dumps/load/loads)"],
+    ),
+    "C07": dict(
+        props="Props/C07.v", tables=["core", "fide"],
+        suites=[suite_xml.run_fide],
+        rule=("suites W-fide / R-fide: FeatureIDEWriter.transform() (returned bytes = file bytes; the file is parsed with "
+              "ElementTree and compared as an element tree with the model's [fide_write], attribute order canonicalised), "
+              "FeatureIDEReader on that file vs [fide_read] as pointer-annotated models; inputs: random models of the "
+              "FeatureIDE fragment (and / or / alt features, abstract flags, XML-special / non-ASCII / quoted names, zero or "
+              "more constraints incl. single literals). oracle: names, tree, abstract flags identical, constraints pairwise "
+              "equivalent by truth table, 4 cycles with byte-identical text from the second generation on"),
+        assumptions=["ElementTree.tostring + minidom.toprettyxml + ElementTree.parse preserve tags, attributes, child order "
+                     "and the text of text-only elements for names without control characters (validated on every case)"],
+        trusted=["external: xml.etree.ElementTree, xml.dom.minidom"],
+    ),
+    "C08": dict(
+        props="Props/C08.v", tables=["core", "glencoe"],
+        suites=[suite_glencoe.run],
+        rule=("suites W-glencoe / R-glencoe: GlencoeWriter.transform() (returned text = file, parsed with json.loads) vs "
+              "[glencoe_write]; GlencoeReader on the file vs [glencoe_read] as pointer-annotated models; inputs: random models "
+              "of the Glencoe fragment (plain mandatory/optional children, or one alternative / or / mutex / [a,b] / [n,n] "
+              "group with mandatory siblings, relations in shuffled order, arbitrary Unicode names), third-party shaped "
+              "documents (n-ary terms, extra keys, root optional flag) and one-defect malformed documents. oracle: an "
+              "independent normal form (children sorted by name) compared structurally, constraints by name and truth table, "
+              "3 cycles with byte-identical text"),
+        assumptions=["json.loads(json.dumps(v)) = v (validated on every case)"],
+        trusted=["external: Python json module"],
     ),
 }
 
